@@ -108,6 +108,9 @@ func (r *Run) Violation(v Violation) {
 	b, _ := json.MarshalIndent(map[string]any{"property": r.Prop, "fingerprint": v.Fingerprint, "summary": v.Summary, "replay": v.Replay}, "", " ")
 	_ = os.WriteFile(p, b, 0o644)
 	r.unknown[v.Fingerprint] = p
+	if os.Getenv("VERIF_DEBUG") != "" {
+		fmt.Fprintf(os.Stderr, "DEBUG violation %s\n  %s\n", v.Fingerprint, v.Summary)
+	}
 }
 
 func (r *Run) Violations() int { r.mu.Lock(); defer r.mu.Unlock(); return r.unknownN }
@@ -117,6 +120,9 @@ func (r *Run) Finish() int {
 	r.mu.Lock()
 	defer r.mu.Unlock()
 	if _, ok := r.Coverage["samples"]; !ok {
+		if r.samples == nil {
+			r.samples = []any{}
+		}
 		r.Coverage["samples"] = r.samples
 	}
 	kh := 0
